@@ -39,7 +39,7 @@ public:
 };
 struct vf_queue_policy {
   typedef int queue_container_policy;
-  template <class T> struct In { typedef vf_static_queue<T, 4> type; };
+  template <class T> struct In { typedef vf_static_queue<T, VF_QCAP> type; };
 };
 namespace std {
 // contract stub for std::stable_sort on the stub container: stable insertion sort permuting the order array
